@@ -11,6 +11,7 @@ package main
 
 import (
 	"fmt"
+	"go/constant"
 	"go/token"
 	"strings"
 
@@ -83,12 +84,21 @@ var c02Table = map[string]triage{
 	`(x/reporter/keeper.Keeper).ReturnSlashedTokens # err-local:errors.New "no validators found in staking module to return "`:      {"accepted", "x/staking keeps at least one bonded validator"},
 
 	// ---- mint BeginBlock
-	`x/mint.BeginBlocker # err-ext:coll:x/mint/keeper.Keeper.Minter.Get`:                                                      {"accepted", "Minter written in InitGenesis (GENESIS-WRITES)"},
-	`x/mint.SetPreviousBlockTime # err-ext:coll:x/mint/keeper.Keeper.Minter.Get`:                                              {"accepted", "Minter written in InitGenesis (GENESIS-WRITES)"},
-	`(x/mint/keeper.Keeper).MintCoins # err-ext:iface:x/mint/types.BankKeeper.MintCoins`:                                      {"accepted", "module account has Minter permission (C03 MACC-PERM)"},
-	`(x/oracle/keeper.Keeper).WeightedMedian # range:(cosmossdk.io/math.LegacyDec).TruncateInt64(loopvar)`:                    {"accepted", "the truncated quantity is the sum of the reporters' powers; a power is bonded stake / 10^6, so the sum is bounded by total supply / 10^6, far below 2^63 (C06 states the same bound)"},
-	`(x/mint/keeper.Keeper).SendInflationaryRewards # err-ext:iface:x/mint/types.BankKeeper.InputOutputCoins`:                 {"linked", "input = sum of outputs = amount just minted (C03 LIN-SPLIT); every output carries a positive amount and the call is skipped without outputs (OUTPUTS-POSITIVE) — x/bank rejects an output without coins, which a provision of 1-3 loya (block times 1-2 ms apart) used to produce (D19)"},
-	`(x/mint/types.Minter).CalculateBlockProvision # err-local:fmt.Errorf "current time %v cannot be before previous time %"`: {"accepted", "assumption: consensus block time is monotone"},
+	`x/mint.BeginBlocker # err-ext:coll:x/mint/keeper.Keeper.Minter.Get`:                                                                                        {"accepted", "Minter written in InitGenesis (GENESIS-WRITES)"},
+	`x/mint.SetPreviousBlockTime # err-ext:coll:x/mint/keeper.Keeper.Minter.Get`:                                                                                {"accepted", "Minter written in InitGenesis (GENESIS-WRITES)"},
+	`(x/mint/keeper.Keeper).MintCoins # err-ext:iface:x/mint/types.BankKeeper.MintCoins`:                                                                        {"accepted", "module account has Minter permission (C03 MACC-PERM)"},
+	`(x/dispute/keeper.Keeper).ExecuteVote # range:github.com/cosmos/cosmos-sdk/types.NewCoin(loopvar)`:                                                         {"accepted", "the burned amount is BurnAmount/2 truncated or BurnAmount; BurnAmount is a twentieth of a positive fee plus round fees (C13 BURN-HALF decides those forms)"},
+	`(x/dispute/keeper.Keeper).ExecuteVote # range:github.com/cosmos/cosmos-sdk/types.NewCoin(loopvar) [2]`:                                                     {"accepted", "as above (second outcome)"},
+	`(x/dispute/keeper.Keeper).ExecuteVote # range:github.com/cosmos/cosmos-sdk/types.NewCoin(loopvar) [3]`:                                                     {"accepted", "as above (third outcome)"},
+	`(x/dispute/keeper.Keeper).ReturnSlashedTokens # range:github.com/cosmos/cosmos-sdk/types.NewCoin(x/dispute/types.Dispute.SlashAmount)`:                     {"accepted", "SlashAmount is the dispute fee (a positive percentage of the reporter's stake), for a winning reporter plus the non-negative fees minus burn (C13 BURN-HALF)"},
+	`(x/mint/keeper.Keeper).SendInflationaryRewards # range:github.com/cosmos/cosmos-sdk/types.NewCoin((cosmossdk.io/math.Int).Add())`:                          {"linked", "sum of the two parts of a non-negative provision (MINT-NO-OVERFLOW, OUTPUTS-POSITIVE)"},
+	`(x/mint/keeper.Keeper).SendInflationaryRewards # range:github.com/cosmos/cosmos-sdk/types.NewCoin((cosmossdk.io/math.Int).QuoRaw())`:                       {"linked", "only under quarter.IsPositive() (OUTPUTS-POSITIVE)"},
+	`(x/mint/keeper.Keeper).SendInflationaryRewards # range:github.com/cosmos/cosmos-sdk/types.NewCoin((cosmossdk.io/math.Int).Sub())`:                          {"linked", "only under threequarters.IsPositive() (OUTPUTS-POSITIVE)"},
+	`(x/mint/types.Minter).CalculateBlockProvision # range:github.com/cosmos/cosmos-sdk/types.NewCoin(/(*(146940000,(time.Duration).Milliseconds()),86400000))`: {"linked", "elapsed time is non-negative behind the current.Before(previous) test, and rate x elapsed stays below 2^63 for any gap up to a year in the unit used (MINT-NO-OVERFLOW)"},
+	`(x/oracle/keeper.Keeper).AllocateRewards # range:github.com/cosmos/cosmos-sdk/types.NewCoin(param3)`:                                                       {"accepted", "the reward is a query's tip amount or the balance of the reward pool: bank balances and recorded tips are non-negative"},
+	`(x/oracle/keeper.Keeper).WeightedMedian # range:(cosmossdk.io/math.LegacyDec).TruncateInt64(loopvar)`:                                                      {"accepted", "the truncated quantity is the sum of the reporters' powers; a power is bonded stake / 10^6, so the sum is bounded by total supply / 10^6, far below 2^63 (C06 states the same bound)"},
+	`(x/mint/keeper.Keeper).SendInflationaryRewards # err-ext:iface:x/mint/types.BankKeeper.InputOutputCoins`:                                                   {"linked", "input = sum of outputs = amount just minted (C03 LIN-SPLIT); every output carries a positive amount and the call is skipped without outputs (OUTPUTS-POSITIVE) — x/bank rejects an output without coins, which a provision of 1-3 loya (block times 1-2 ms apart) used to produce (D19)"},
+	`(x/mint/types.Minter).CalculateBlockProvision # err-local:fmt.Errorf "current time %v cannot be before previous time %"`:                                   {"accepted", "assumption: consensus block time is monotone"},
 
 	// ---- oracle EndBlock
 	`(x/oracle/keeper.Keeper).AllocateRewards # err-ext:github.com/cosmos/cosmos-sdk/types.AccAddressFromBech32`:                 {"linked", "the address string is AggregateReporter.Reporter, produced by AccAddress.String() in SetValue (REPORTER-BECH32)"},
@@ -232,6 +242,55 @@ func c02Links(r *Result) {
 			}
 		}
 		link(n > 0, "VALUE-NORMALISED", "(x/bridge/keeper.Keeper).EncodeOracleAttestationData # decodes the value", P.Pos(enc.Pos()), fmt.Sprintf("%d non-constant DecodeString sites", n))
+	}
+	// MINT-NO-OVERFLOW: the provision multiplies a constant rate by the elapsed time in int64; the product must not wrap
+	// for any gap between two blocks up to a year, in the unit the elapsed time is taken in
+	if cbp := need("(x/mint/types.Minter).CalculateBlockProvision"); cbp != nil {
+		ticksPerYear := map[string]float64{"Seconds": 3.1536e7, "Milliseconds": 3.1536e10, "Microseconds": 3.1536e13, "Nanoseconds": 3.1536e16}
+		n := 0
+		for _, b := range cbp.Blocks {
+			for _, in := range b.Instrs {
+				bo, ok := in.(*ssa.BinOp)
+				if !ok || bo.Op != token.MUL {
+					continue
+				}
+				var cst *ssa.Const
+				var other ssa.Value
+				if c, ok := bo.X.(*ssa.Const); ok {
+					cst, other = c, bo.Y
+				} else if c, ok := bo.Y.(*ssa.Const); ok {
+					cst, other = c, bo.X
+				}
+				if cst == nil || cst.Value == nil {
+					continue
+				}
+				t := NewTermer().Of(other)
+				unit := ""
+				for u := range ticksPerYear {
+					if t.Op == "call:(time.Duration)."+u {
+						unit = u
+					}
+				}
+				if unit == "" {
+					continue
+				}
+				n++
+				rate, _ := constant.Float64Val(constant.ToFloat(cst.Value))
+				okO := rate > 0 && rate*ticksPerYear[unit] < 9.2e18
+				link(okO, "MINT-NO-OVERFLOW", "(x/mint/types.Minter).CalculateBlockProvision # rate x elapsed "+strings.ToLower(unit)+" stays below 2^63 for gaps up to a year", P.Pos(bo.Pos()), fmt.Sprintf("rate %.0f x %.4g ticks per year = %.3g", rate, ticksPerYear[unit], rate*ticksPerYear[unit]))
+			}
+		}
+		link(n == 1, "MINT-NO-OVERFLOW", "(x/mint/types.Minter).CalculateBlockProvision # one rate x elapsed-time product", P.Pos(cbp.Pos()), fmt.Sprint(n))
+		// elapsed >= 0: the product is reached only behind the `current before previous` rejection
+		ps := AnalyzePaths(cbp, []Atom{{Name: "backwards", Stable: true, Cond: func(rel *Term) (bool, bool) {
+			return rel.Op == "<" && len(rel.Args) == 2 && rel.Args[0].Op == "param:1:time.Time" && rel.Args[1].Op == "param:2:time.Time", true
+		}}})
+		for _, cs := range P.CallSitesIn(cbp) {
+			if cs.Callee == "(time.Time).Sub" {
+				bad := ps.Require(cs.Instr, func(v map[string]bool) bool { return !v["backwards"] })
+				link(len(bad) == 0 && len(ps.Matched["backwards"]) > 0, "MINT-NO-OVERFLOW", "(x/mint/types.Minter).CalculateBlockProvision # the elapsed time is taken only when current is not before previous", P.Pos(cs.Pos()), fmt.Sprint(statesStr(ps, cs.Instr)))
+			}
+		}
 	}
 	// the validation at submission parses the value with the same strict decoder, after the same normaliser and nothing else
 	if dv := need("x/registry/types.DecodeValue"); dv != nil {
